@@ -2027,8 +2027,17 @@ impl<'a> Searcher<'a> {
                 .is_some_and(|left| left.val.is_some() && left.function.is_none());
             let value_type = match (op, field_value.get_type(), value.get_type()) {
                 (Op::Rx | Op::NotRx | Op::Like | Op::NotLike, _, _) => &VariantType::String,
-                // a whole number against a fraction (`hardlinks = 5 / 2`) is compared as it is, not cut
+                // a whole number against a fraction (`hardlinks = 5 / 2`, `size > 1.5`) is compared as it
+                // is, not cut
                 (_, VariantType::Int, VariantType::Float) => &VariantType::Float,
+                (_, VariantType::Int, VariantType::String)
+                    if value
+                        .to_string()
+                        .parse::<f64>()
+                        .is_ok_and(|number| number.is_finite() && number.fract() != 0.0) =>
+                {
+                    &VariantType::Float
+                }
                 // a literal on the left (`8 < size`) is read as what it is compared with
                 (_, VariantType::String, right_type) if left_is_literal => right_type,
                 (_, left_type, _) => left_type,
